@@ -318,6 +318,72 @@ def valuations(call, nodes, nv, rng_seed=12345):
             yield [rng.random() < 0.5 for _ in range(nv)]
 
 
+def count_fixed(nodes, nv, fixed):
+    """number of valuations of the NON-fixed variables on which the (valid) diagram is true, the others as in `fixed`"""
+    free_below = [0] * (nv + 2)          # free_below[i] = number of non-fixed variables < i
+    for i in range(nv):
+        free_below[i + 1] = free_below[i] + (0 if i in fixed else 1)
+    free_below[nv + 1] = free_below[nv]
+    if len(nodes) == 1:
+        return 0
+    memo = {}
+
+    def level(p):
+        return nv if p < 2 else nodes[p][0]
+
+    def go(p):                            # count over the free variables >= level(p)
+        if p == 0:
+            return 0
+        if p == 1:
+            return 1
+        if p in memo:
+            return memo[p]
+        x, lo, hi = nodes[p]
+        def branch(c):
+            return go(c) << (free_below[level(c)] - free_below[x + 1])
+        r = branch(hi if fixed[x] else lo) if x in fixed else branch(lo) + branch(hi)
+        memo[p] = r
+        return r
+    root = len(nodes) - 1
+    return go(root) << (free_below[level(root)] - free_below[0])
+
+
+def pick_classes_large(call, result, nv):
+    """exact check of the pick relation for many variables: for every assignment of the UNPICKED variables (a class), the
+    result has exactly one member iff the operand has one, and that member satisfies the operand"""
+    a = bdd_nodes(call[1])
+    xs = set(vars_of(call[2]))
+    unpicked = [x for x in range(nv) if x not in xs]
+    sup = {n[0] for n in a[2:]} | {n[0] for n in result[2:]}
+    rel = [x for x in unpicked if x in sup]          # unpicked variables nobody depends on do not split classes further
+    if len(rel) > 12:
+        return "too-many-classes"
+    for bits in itertools.product([False, True], repeat=len(rel)):
+        fixed = {x: False for x in unpicked}
+        fixed.update(dict(zip(rel, bits)))
+        nb, nr = count_fixed(a, nv, fixed), count_fixed(result, nv, fixed)
+        if (nb > 0 and nr != 1) or (nb == 0 and nr != 0):
+            return {"class_fixing_unpicked_variables": {str(k): v for k, v in sorted(fixed.items()) if k in rel},
+                    "operand_members": nb, "result_members": nr, "problem": "a non-empty class must keep exactly one valuation"}
+        if nr == 1:
+            # the unique member: descend along the branch with a non-zero count
+            v = [False] * nv
+            for x, c in fixed.items():
+                v[x] = c
+            for x in sorted(xs):
+                f1 = dict(fixed)
+                f1[x] = True
+                if count_fixed(result, nv, f1) >= 1:
+                    v[x] = True
+                    fixed = f1
+                else:
+                    fixed = dict(fixed)
+                    fixed[x] = False
+            if not raw_eval(a, v):
+                return {"true_variables": [i for i, c in enumerate(v) if c], "problem": "in the result but not in the operand"}
+    return None
+
+
 def check(call, impl):
     """(confirmed, description).  confirmed=True: a concrete failing input of the property is exhibited."""
     try:
@@ -336,7 +402,10 @@ def check(call, impl):
             if nodes[0][0] != nv:
                 return True, "result over %d variables, operands over %d" % (nodes[0][0], nv)
             if nv > MAXNV:
-                return False, "class-counting oracle needs a small variable count"
+                bad = pick_classes_large(call, nodes, nv)
+                if bad == "too-many-classes":
+                    return False, "class-counting oracle: too many unpicked variables to enumerate the classes"
+                return (bad is not None), bad
             bad = pred(fn_of(nodes))
             return (bad is not None), bad
         nv, f = exp
